@@ -6,30 +6,36 @@ PROPS = "RotoV.Props.C09"
 
 
 def search(ctx):
-    # a bigger run with another seed; the exhaustive operator-sequence part and
-    # the fixed witnesses come first inside the harness
+    # a bigger run with another seed; the boundary tables of the bracketed
+    # constructs (every leaf kind x every position, every position x every
+    # position), the exhaustive operator-sequence part and the fixed witnesses
+    # come first inside the harness and do not depend on the seed
     if ctx.build_harness("c09"):
         ctx.harness("c09", ["run", ctx.seed + 7919, "thorough" if ctx.tier == "thorough" else "quick"],
                     timeout=3000, name="search:c09")
 
 
 def run(ctx):
-    ctx.extract(["precedence"])
+    ctx.extract(["precedence", "lookahead"])
     ctx.prove(PROPS, extra_modules=["RotoV.Model.Pratt", "RotoV.Model.Literal", "RotoV.Model.FString",
-                                    "RotoV.Lemmas.Pratt", "RotoV.Lemmas.Literal"])
+                                    "RotoV.Model.LookAheadBase", "RotoV.Model.LookAhead",
+                                    "RotoV.Lemmas.Pratt", "RotoV.Lemmas.Literal", "RotoV.Lemmas.LookAhead"])
     if ctx.build_harness("c09"):
         ctx.harness("c09", ["run", ctx.seed, ctx.tier], timeout=3000)
     ctx.trusted += [
         "rustc-literal-escaper (escape decoding) is modelled by Model/Literal.unescape and tied by the correspondence run only",
         "unicode-ident's XID_Start / XID_Continue predicates are parameters of the lexer model (the harness takes them from the crate)",
         "Rust std: str::parse for i64/u32/f64, Ipv4Addr/Ipv6Addr::from_str, Display of addresses; inetnum Prefix::new_relaxed",
-        "the atoms of the Pratt model stand for whatever Parser::access parses as one operand (not modelled)",
+        "the atoms of the Pratt model stand for whatever Parser::access parses as one operand; the look-ahead model "
+        "(Model/LookAhead) covers atom/access/block/record/separated/f_string on token classes and is tied by the "
+        "correspondence run (real parse tree vs model vs printed tree) and the generated look-ahead facts",
     ]
     return ctx.finish(
         level="proof",
         rule="operator sequences: a class is (level pattern of the operators, prefix operators present, accepted/rejected); "
              "literals: (kind, type, spelling features); identifiers: (origin, ascii/unicode, valid/invalid); "
-             "comments: (shebang kind, number of comments)",
+             "comments: (shebang kind, number of comments); bracketed constructs: (path of positions outermost first, "
+             "leaf kind, parsed/rejected) and the same for the JIT evaluation; literal positions: (literal class, position)",
         search=search,
     )
 
